@@ -1,4 +1,4 @@
-package main
+package c11
 
 // C11 — implicit defaults are made explicit exactly as the specification defines them.
 //
